@@ -50,6 +50,9 @@ def is_motif(B, S, M, root):
 
 
 def is_mintrap(B, M, inside=None):
+    if hasattr(B, "comps"):
+        return _c(B, ("mintrap", M), lambda: B.is_mintrap(M))
+
     def build():
         smaller = [M2 for M2 in B.subspaces if M2 != M and refines(M2, M)]
         return B.And([B.trap(M)] + [B.Not(B.trap(M2)) for M2 in smaller])
@@ -261,6 +264,8 @@ def candidates_cover(B, dump, nid, cands):
 def has_motif_avoidant(B):
     """the network has an attractor that is not inside any minimal trap space... (used by C05):
     some attractor state x lies in no minimal trap space"""
+    if hasattr(B, "comps"):
+        return B.has_motif_avoidant()
     parts = []
     for x in B.states:
         inmin = B.Or([is_mintrap(B, M) for M in B.subspaces if in_space(x, M)])
